@@ -126,6 +126,24 @@ def features(t, acc):
 
 # systematic feature-interaction templates: source text + expected value (by the specification)
 TEMPLATES = [
+    # shadowing: an inner binder of the same name wins inside its scope only, whatever the two binder kinds are
+    ("local x = 1; [local x = 2; x, x]", [2.0, 1.0]),
+    ("local x = 1; [(function(x) x)(2), x]", [2.0, 1.0]),
+    ("local x = 1; [[x for x in [2, 3]], x]", [[2.0, 3.0], 1.0]),
+    ("[x for x in [1, 2] for x in [x * 10, x * 20]]", [10.0, 20.0, 20.0, 40.0]),
+    ("[x for x in [1, 2] for x in [x * 10, x * 20] if x > 15]", [20.0, 20.0, 40.0]),
+    ("[[x for x in [x * 10]] for x in [1, 2]]", [[10.0], [20.0]]),
+    ("[x + y for x in [1] for y in [x + 1] for x in [y * 10]]", [22.0]),
+    ("{[k]: k for k in ['a'] for k in [k + '1', k + '2']}", {"a1": "a1", "a2": "a2"}),
+    ("local x = 1; {local x = 2, a: x}.a + x", 3.0),
+    ("local x = 'a'; {local x = 'b', [x]: x}", {"a": "b"}),
+    ("local x = 1; (function(x, y=x) y)(5) + x", 6.0),
+    ("local x = 1; {local x = 2, f(x):: x, a: self.f(3) + x}.a", 5.0),
+    ("local k = 'z'; {local k2 = k, [k]: k2 for k in ['a', 'b']}", {"a": "a", "b": "b"}),
+    ("local x = 1; local f(x) = (local x = 7; x); [f(2), x]", [7.0, 1.0]),
+    ("local x = [1, 2]; [x for x in x]", [1.0, 2.0]),
+    ("local f = function(f) f; f(3)", 3.0),
+    ("local o = {x: 1, y: {x: 2, z: self.x, w: $.x}}; [o.y.z, o.y.w]", [2.0, 1.0]),
     ("{a: 1, b: self.a + 1} + {a: 10}", {"a": 10.0, "b": 11.0}),
     ("{a: 1} + {a+: 2} + {a+: 3}", {"a": 6.0}),
     ("({a: [1]} + {a+: [2]}) + {a+: [3]}", {"a": [1.0, 2.0, 3.0]}),
